@@ -7,10 +7,12 @@ T == ndJsonDeserialize(IOEnv.TRACE)
 NT == Len(T)
 Ev == T[l]
 TInit == ents = <<>> /\ lastOp = [op |-> "init", k |-> 0, v |-> 0] /\ l = 1 /\ skipping = FALSE
-Expected == Apply(ents, Ev.op, Ev.k, Ev.v)
+\* "afterload": the harness put a fresh entry into the table it had just loaded a file into (whether or not the load succeeded, with no
+\* allocation failing any more) and reports whether it landed at the end the table inserts at; nothing changes in the table under test
+Expected == IF Ev.op = "afterload" THEN Res(ents, TRUE, 0, 0, <<>>) ELSE Apply(ents, Ev.op, Ev.k, Ev.v)
 Seconds(s) == [i \in 1..Len(s) |-> s[i][2]]
 ResultOk(r) ==
-      /\ (Ev.op \in {"put", "get", "getmulti", "saveload", "debug"} => Ev.ok = r.ok)
+      /\ (Ev.op \in {"put", "get", "getmulti", "saveload", "debug", "afterload"} => Ev.ok = r.ok)
       /\ (Ev.op \in {"get", "getmulti"} /\ ~r.ok => Ev.err = r.err)
       /\ (Ev.op \in {"get", "getmulti", "remove", "rmwalk", "walk", "walkname", "size", "saveload"} => Ev.n = r.n)
       /\ (Ev.op \in {"walk", "walkname", "saveload"} => Ev.out = r.out)
